@@ -108,6 +108,10 @@ Inductive scase :=
    [inflight]: a Sync was still blocked on a silent peer at the end *)
 | CTicks (chained : bool) (bk : backend) (valid : list beacon) (base : raw) (upTo : Z)
          (nticks : nat) (attempts : list (list peer_c)) (inflight : bool) (x : obs)
+(* Sync(upTo) called once per element of [attempts] until one returns nil; the raw store under the
+   stack fails the Put of round [r] once (it hits the first peer of the first attempt) *)
+| CFault (chained : bool) (bk : backend) (valid : list beacon) (base : raw) (upTo r : Z)
+         (attempts : list (list peer_c)) (x : obs)
 (* BeaconProcess.StartFollowChain on a fresh node: [hash] = the operator's chain hash ([1] names
    the real chain's information, whose oracle table is [valid]; any other hash names foreign
    information, oracle table [valid2]); [answers]: per peer, the ChainInfo answer *)
@@ -165,6 +169,16 @@ Definition ok (c : scase) : bool :=
                      else if tk_inflight s then SyncBlocked ECanceled else SyncErr EFailedAll in
           Bool.eqb (tk_inflight s) inflight &&
           obs_ok chained false (mkSy res (tk_st s) (tk_ws s) (tk_reqs s)) x
+      end
+  | CFault chained bk valid base upTo r attempts x =>
+      match open_store base with
+      | None => false
+      | Some st =>
+          let atts := match map (map to_peer) attempts with
+                      | (p :: ps) :: rest => (with_put_failure r p :: ps) :: rest
+                      | l => l
+                      end in
+          obs_ok chained false (run_attempts (vfy_tab valid) chained bk SkAppend upTo st atts) x
       end
   | CFollow chained bk valid valid2 hash answers upTo cur attempts res progress dump =>
       let o := follow (fun i => vfy_tab (if bytes_eqb (i_hash i) [1] then valid else valid2))
